@@ -23,7 +23,8 @@ META = {
                  "edge kinds, each class and list / Optional / dict[str, .] of it as root, values of depth 2",
         "thorough": "symbolic depth 3; d = 0..150; two edge kinds per graph",
     },
-    "assumptions": ["graphs whose order contains a forward reference to a bare generic (KF15's signature) are attributed to that finding"],
+    "assumptions": ["a failure on a graph whose order contains a forward reference to a bare generic is labelled `:bare_generic_ref` (the signature of the defect repaired by c7b2458; none occur on the repaired tree)",
+                    "`below the interpreter's recursion limit` is read as: a RecursionError at nesting depth d is outside the claim only when 8 d + 100 >= 1000 (the default limit) (a routine may use a constant number of frames per level; about 7 are used)"],
 }
 
 
@@ -144,6 +145,16 @@ def _levels(v, depth=0):
                 yield from _levels(y, depth + 1)
 
 
+DEFAULT_LIMIT = 1000  # the interpreter's default; CPython 3.12 also has a fixed C-stack budget reached at about the same depth
+FRAMES_PER_LEVEL = 8  # "below the interpreter's recursion limit": a routine may use a constant number of frames per level
+
+
+def _beyond_stack(e, depth):
+    """A RecursionError is outside the claim when the nesting depth itself approaches the interpreter's limit
+    (depth x FRAMES_PER_LEVEL + 100 >= 1000, the default limit - the harness itself runs with a raised Python limit, CPython's C-stack budget is still reached near depth 140); below that it is a violation like any other exception."""
+    return isinstance(e, RecursionError) and depth * FRAMES_PER_LEVEL + 100 >= DEFAULT_LIMIT
+
+
 def make_deep(name, T, builder, dmax, timeout):
     try:
         MT, UT = _routines(T)
@@ -163,6 +174,8 @@ def make_deep(name, T, builder, dmax, timeout):
         ok, m = attempt(MT, v)
         if not ok:
             reached()
+            if _beyond_stack(m, d):
+                return None
             return ("marshal_raised", name, _d(d, m))
         w = plain(m)
         if w is not None:
@@ -171,6 +184,8 @@ def make_deep(name, T, builder, dmax, timeout):
         ok, r = attempt(UT, m)
         reached()
         if not ok:
+            if _beyond_stack(r, d):
+                return None
             return ("unmarshal_raised", name, _d(d, r))
         # every level converted: the result equals the input and carries the classes of the input at each level
         vs, rs = list(_levels(v)), list(_levels(r))
